@@ -478,6 +478,12 @@ static void gen_rle(hctx* h) {
       do_rle_encops(h, 1, "p1.p0.r1x10.f");                                            /* F1 on the flush path */
       do_rle_encops(h, 3, "p1.p2.p3.r5x8.p1.f");
       do_rle_encops(h, 3, "r5x3.f.r5x2.p6.f");                                         /* put after flush */
+      /* run headers at the varint length boundaries (count << 1 = 2^7, 2^14, 2^21), alone and behind a bit-packed prefix;
+       * put_repeat as the very FIRST call (also of value 0, the encoder's initial prev_value), then other values */
+      { static const char* const rb[] = { "r1x63.f", "r1x64.f", "r1x65.f", "r1x8191.f", "r1x8192.f", "r1x8193.f", "p0.p1.p0.r1x8197.f",
+                                          "r2x16383.p1.f", "r2x16384.p1.f", "r1x1048575.f", "r1x1048576.f", "r1x1048577.p0.f",
+                                          "r0x10.r1x10.f", "r0x10.p1.f", "r0x3.p0.p1.f", "r0x8.f", "r0x9.r0x9.p2.f", "r0x1.r1x1.f" };
+        for (unsigned i = 0; i < sizeof rb / sizeof rb[0]; i++) do_rle_encops(h, 2 + (int)(i % 3), rb[i]); }
       do_rle_bigrun(h, 3, 5, 2147483647ll); do_rle_bigrun(h, 3, 5, 2147483648ll);      /* F30 */
       do_rle_bigrun(h, 9, 300, 4294967296ll + 9); do_rle_bigrun(h, 0, 0, 6442450941ll);
       static const uint8_t f31[] = {0x00, 0x05, 0x02, 0x03};                           /* F31 */
